@@ -136,6 +136,22 @@ def run(ctx: Ctx) -> None:
 
     order_rule(ctx, "R08.order")
     drain_rule(ctx, "R08.drain")
+    stallpair_rule(ctx, "R08.stallpair")
+
+    r = ctx.rule("R08.readsite", "the register file is read in decode only (access_register_file), never in EX/MEM/WB callbacks")
+    n_cls = 0
+    for c in m.subclasses(m.cls("RiscvInstruction")):
+        for mn in ("alu_compute", "memory_access", "write_back", "control_unit_signals", "get_write_register"):
+            f = c.methods.get(mn)
+            if f is None:
+                continue
+            n_cls += 1
+            reads = [n for n in ast.walk(f.node) if isinstance(n, ast.Subscript) and isinstance(n.ctx, ast.Load)
+                     and isinstance(n.value, ast.Attribute) and n.value.attr == "registers"]
+            r.check(not reads, f"{c.name}.{mn}", f.loc(reads[0]) if reads else f.loc(),
+                    f"{c.name}.{mn} reads the register file after decode: with hazard detection off it would observe a younger "
+                    "write-back than the documented stale value (and differ from the operand latched in ID)")
+    r.floor(60)
 
     r = ctx.rule("R08.conf", "ID writes nothing; among the five stages only WB writes registers")
     eff = effects(ctx)
